@@ -336,7 +336,12 @@ static void c_seedrep(const Args& a) {
 //      5  F.nonzerorandom(g, e)
 //      6  F.random(g, e, size)
 //      7  F.nonzerorandom(g, e, size)
-enum Caps { C_SIZE = 1, C_GEN = 2 };   // C_SIZE: has random(g, e, size); C_GEN: init(e, uint64_t) exists (GeneralRingRandIter)
+//      8  typename Ring::RandIter(F, seed, size)      the three-argument constructor (ModularRandIter ignores the size, GIV_randIter clamps it,
+//                                                     GeneralRingRandIter reduces the draw modulo it)
+//      9  typename Ring::RandIter c(F, seed, size), d(F, seed + 977, 2); d = c;   copy ASSIGNMENT between iterators built with different
+//         sampling sizes: sequence 0 is drawn from c, sequence 1 from d -- after the assignment d must behave like c
+enum Caps { C_SIZE = 1, C_GEN = 2, C_CTOR3 = 4, C_ASSIGN = 8 };   // C_CTOR3: Ring::RandIter(F, seed, size); C_ASSIGN: RandIter::operator=
+   // C_SIZE: has random(g, e, size); C_GEN: init(e, uint64_t) exists (GeneralRingRandIter)
 
 // two sequences from the same seed:
 //   rep 0: every draw goes into a destination pre-filled with a non-canonical value;
@@ -367,6 +372,20 @@ static void ring_fn(const Args& a, const Ring& F) {
             for (size_t i = 0; i < half; ++i) { E e; fresh(e); if (i % 2) nz.random(e); else nz(e); v.push_back(e); }
             Givaro::GeneralRingNonZeroRandIter<Ring, typename Ring::RandIter> c(nz);
             for (size_t i = half; i < n; ++i) { E e; fresh(e); c.random(e); v.push_back(e); }
+        } else if (fn == 8 || fn == 9) {
+            if constexpr ((CAPS & C_CTOR3) != 0) {
+                Res_t size = (Res_t)a.W(5);
+                typename Ring::RandIter it(F, seed, size);
+                if (fn == 8) {
+                    for (size_t i = 0; i < half; ++i) { E e; fresh(e); if (i % 2) it.random(e); else it(e); v.push_back(e); }
+                    typename Ring::RandIter c(it);
+                    for (size_t i = half; i < n; ++i) { E e; fresh(e); c.random(e); v.push_back(e); }
+                } else if constexpr ((CAPS & C_ASSIGN) != 0) {
+                    typename Ring::RandIter d(F, seed + 977, (Res_t)2);
+                    d = it;
+                    for (size_t i = 0; i < n; ++i) { E e; fresh(e); if (rep) d.random(e); else it.random(e); v.push_back(e); }
+                } else ran = false;
+            } else ran = false;
         } else if (fn == 4 || fn == 5) {
             Givaro::GivRandom g(seed);
             for (size_t i = 0; i < half; ++i) { E e; fresh(e); if (fn == 4) F.random(g, e); else F.nonzerorandom(g, e); v.push_back(e); }
@@ -425,40 +444,40 @@ static void c_ring(const Args& a) {
     unsigned T = (unsigned)a.W(0);
     using namespace Givaro;
     switch (T) {
-        case 0x1: ring_w<Modular<int8_t>, C_SIZE | C_GEN>(a); break;
-        case 0x2: ring_w<Modular<uint8_t>, C_SIZE | C_GEN>(a); break;
-        case 0x3: ring_w<Modular<int16_t>, C_SIZE | C_GEN>(a); break;
-        case 0x4: ring_w<Modular<uint16_t>, C_SIZE | C_GEN>(a); break;
-        case 0x5: ring_w<Modular<int32_t>, C_SIZE | C_GEN>(a); break;
-        case 0x6: ring_w<Modular<uint32_t>, C_SIZE | C_GEN>(a); break;
-        case 0x7: ring_w<Modular<int64_t>, C_SIZE | C_GEN>(a); break;
-        case 0x8: ring_w<Modular<uint64_t>, C_SIZE | C_GEN>(a); break;
-        case 0x9: ring_w<Modular<int32_t, int64_t>, C_SIZE | C_GEN>(a); break;
-        case 0xa: ring_w<Modular<uint32_t, uint64_t>, C_SIZE | C_GEN>(a); break;
-        case 0x10: ring_w<Modular<float>, C_GEN>(a); break;
-        case 0x11: ring_w<Modular<double>, C_GEN>(a); break;
-        case 0x12: ring_w<ModularBalanced<int32_t>, C_GEN>(a); break;
-        case 0x13: ring_w<ModularBalanced<int64_t>, C_GEN>(a); break;
-        case 0x14: ring_w<ModularBalanced<float>, C_GEN>(a); break;
-        case 0x15: ring_w<ModularBalanced<double>, C_GEN>(a); break;
-        case 0x16: ring_w<Montgomery<int32_t>, 0>(a); break;
+        case 0x1: ring_w<Modular<int8_t>, C_SIZE | C_GEN | C_CTOR3 | C_ASSIGN>(a); break;
+        case 0x2: ring_w<Modular<uint8_t>, C_SIZE | C_GEN | C_CTOR3 | C_ASSIGN>(a); break;
+        case 0x3: ring_w<Modular<int16_t>, C_SIZE | C_GEN | C_CTOR3 | C_ASSIGN>(a); break;
+        case 0x4: ring_w<Modular<uint16_t>, C_SIZE | C_GEN | C_CTOR3 | C_ASSIGN>(a); break;
+        case 0x5: ring_w<Modular<int32_t>, C_SIZE | C_GEN | C_CTOR3 | C_ASSIGN>(a); break;
+        case 0x6: ring_w<Modular<uint32_t>, C_SIZE | C_GEN | C_CTOR3 | C_ASSIGN>(a); break;
+        case 0x7: ring_w<Modular<int64_t>, C_SIZE | C_GEN | C_CTOR3 | C_ASSIGN>(a); break;
+        case 0x8: ring_w<Modular<uint64_t>, C_SIZE | C_GEN | C_CTOR3 | C_ASSIGN>(a); break;
+        case 0x9: ring_w<Modular<int32_t, int64_t>, C_SIZE | C_GEN | C_CTOR3 | C_ASSIGN>(a); break;
+        case 0xa: ring_w<Modular<uint32_t, uint64_t>, C_SIZE | C_GEN | C_CTOR3 | C_ASSIGN>(a); break;
+        case 0x10: ring_w<Modular<float>, C_GEN | C_CTOR3 | C_ASSIGN>(a); break;
+        case 0x11: ring_w<Modular<double>, C_GEN | C_CTOR3 | C_ASSIGN>(a); break;
+        case 0x12: ring_w<ModularBalanced<int32_t>, C_GEN | C_CTOR3 | C_ASSIGN>(a); break;
+        case 0x13: ring_w<ModularBalanced<int64_t>, C_GEN | C_CTOR3 | C_ASSIGN>(a); break;
+        case 0x14: ring_w<ModularBalanced<float>, C_GEN | C_CTOR3 | C_ASSIGN>(a); break;
+        case 0x15: ring_w<ModularBalanced<double>, C_GEN | C_CTOR3 | C_ASSIGN>(a); break;
+        case 0x16: ring_w<Montgomery<int32_t>, C_CTOR3 | C_ASSIGN>(a); break;
         case 0x17: ring_w<ModularExtended<double>, 0>(a); break;
-        case 0x30: { GF2 F; ring_fn<GF2, C_SIZE>(a, F); break; }
-        case 0x31: { ZRing<int8_t> F; ring_fn<UnparametricZRing<int8_t>, C_GEN>(a, F); break; }
-        case 0x32: { ZRing<uint8_t> F; ring_fn<UnparametricZRing<uint8_t>, C_GEN>(a, F); break; }
-        case 0x33: { ZRing<int16_t> F; ring_fn<UnparametricZRing<int16_t>, C_GEN>(a, F); break; }
-        case 0x34: { ZRing<uint16_t> F; ring_fn<UnparametricZRing<uint16_t>, C_GEN>(a, F); break; }
-        case 0x35: { ZRing<int32_t> F; ring_fn<UnparametricZRing<int32_t>, C_GEN>(a, F); break; }
-        case 0x36: { ZRing<uint32_t> F; ring_fn<UnparametricZRing<uint32_t>, C_GEN>(a, F); break; }
-        case 0x37: { ZRing<int64_t> F; ring_fn<UnparametricZRing<int64_t>, C_GEN>(a, F); break; }
-        case 0x38: { ZRing<uint64_t> F; ring_fn<UnparametricZRing<uint64_t>, C_GEN>(a, F); break; }
-        case 0x39: { ZRing<double> F; ring_fn<UnparametricZRing<double>, C_GEN>(a, F); break; }
+        case 0x30: { GF2 F; ring_fn<GF2, C_SIZE | C_CTOR3 | C_ASSIGN>(a, F); break; }
+        case 0x31: { ZRing<int8_t> F; ring_fn<UnparametricZRing<int8_t>, C_GEN | C_CTOR3>(a, F); break; }
+        case 0x32: { ZRing<uint8_t> F; ring_fn<UnparametricZRing<uint8_t>, C_GEN | C_CTOR3>(a, F); break; }
+        case 0x33: { ZRing<int16_t> F; ring_fn<UnparametricZRing<int16_t>, C_GEN | C_CTOR3>(a, F); break; }
+        case 0x34: { ZRing<uint16_t> F; ring_fn<UnparametricZRing<uint16_t>, C_GEN | C_CTOR3>(a, F); break; }
+        case 0x35: { ZRing<int32_t> F; ring_fn<UnparametricZRing<int32_t>, C_GEN | C_CTOR3>(a, F); break; }
+        case 0x36: { ZRing<uint32_t> F; ring_fn<UnparametricZRing<uint32_t>, C_GEN | C_CTOR3>(a, F); break; }
+        case 0x37: { ZRing<int64_t> F; ring_fn<UnparametricZRing<int64_t>, C_GEN | C_CTOR3>(a, F); break; }
+        case 0x38: { ZRing<uint64_t> F; ring_fn<UnparametricZRing<uint64_t>, C_GEN | C_CTOR3>(a, F); break; }
+        case 0x39: { ZRing<double> F; ring_fn<UnparametricZRing<double>, C_GEN | C_CTOR3>(a, F); break; }
         case 0x18: { Modular<Integer> F(argZ(a, 1)); ring_fn<Modular<Integer>, 0>(a, F); break; }
         case 0x1a: { Modular<RU7, RU8> F(toRu<7>(argZ(a, 1))); ring_fn<Modular<RU7, RU8>, 0>(a, F); break; }
         case 0x1b: { Montgomery<RU7> F(toRu<7>(argZ(a, 1))); ring_fn<Montgomery<RU7>, 0>(a, F); break; }
         case 0x1c: { Modular<RecInt::rint<7>> F(toRi<7>(argZ(a, 1))); ring_fn<Modular<RecInt::rint<7>>, 0>(a, F); break; }
-        case 0x20: { GFqDom<int32_t> F((uint32_t)a.W(1), (uint32_t)a.W(2)); ring_fn<GFqDom<int32_t>, C_SIZE>(a, F); break; }
-        case 0x21: { GFqDom<int64_t> F((uint64_t)a.W(1), (uint64_t)a.W(2)); ring_fn<GFqDom<int64_t>, C_SIZE>(a, F); break; }
+        case 0x20: { GFqDom<int32_t> F((uint32_t)a.W(1), (uint32_t)a.W(2)); ring_fn<GFqDom<int32_t>, C_SIZE | C_CTOR3 | C_ASSIGN>(a, F); break; }
+        case 0x21: { GFqDom<int64_t> F((uint64_t)a.W(1), (uint64_t)a.W(2)); ring_fn<GFqDom<int64_t>, C_SIZE | C_CTOR3 | C_ASSIGN>(a, F); break; }
         default: out(a, "BADTYPE");
     }
 }
@@ -878,6 +897,7 @@ struct Gen {
             if (first) for (uint64_t s : {(uint64_t)2147483647ULL, (uint64_t)4294967294ULL, (uint64_t)1 << 63}) add(hd + H(s) + " 5 0 " + H(n));
             add(hd + H(gseed()) + " 0 0 " + H(n));
             if (caps & C_GEN) for (uint64_t sz : {(uint64_t)0, (uint64_t)1, (uint64_t)2, p / 2 + 1, p}) add(hd + H(gseed()) + " 2 " + H(sz) + " " + H(n));
+            for (uint64_t sz : {(uint64_t)0, (uint64_t)1, (uint64_t)3, p / 2 + 1, p}) { add(hd + H(gseed()) + " 8 " + H(sz) + " " + H(n)); add(hd + H(gseed()) + " 9 " + H(sz) + " " + H(n)); }
             if (caps & C_SIZE) {
                 std::vector<uint64_t> szs = {0, 1, 2, 3, p / 2, p - 1, p, p + 1};
                 uint64_t rmax = (uint64_t)(typename Ring::Residu_t)(~0ULL);
@@ -913,13 +933,13 @@ struct Gen {
         ring_cases<ModularExtended<double>>(0x17, 0);
         {   // GF2 and the ZRing family (no modulus)
             size_t nz = thorough ? 200 : 40;
-            for (int fn : {0, 1, 3, 4, 5, 6, 7}) for (int rpt = 0; rpt < (thorough ? 8 : 3); ++rpt)
+            for (int fn : {0, 1, 3, 4, 5, 6, 7, 8, 9}) for (int rpt = 0; rpt < (thorough ? 8 : 3); ++rpt)
                 add("ring 30 2 1 " + H(gseed(fn != 3)) + " " + H(fn) + " " + H(rpt) + " " + H(nz));
             for (unsigned T = 0x31; T <= 0x39; ++T) {
                 for (int fn : {0, 3, 4, 5}) for (int rpt = 0; rpt < (thorough ? 6 : 2); ++rpt)
                     add("ring " + H(T) + " 0 1 " + H(gseed(fn == 0 || fn == 4)) + " " + H(fn) + " 0 " + H(nz));
                 for (uint64_t sz : {(uint64_t)0, (uint64_t)1, (uint64_t)2, (uint64_t)3, (uint64_t)100, (uint64_t)127})
-                    add("ring " + H(T) + " 0 1 " + H(gseed()) + " 2 " + H(sz) + " " + H(nz));
+                    { add("ring " + H(T) + " 0 1 " + H(gseed()) + " 2 " + H(sz) + " " + H(nz)); add("ring " + H(T) + " 0 1 " + H(gseed()) + " 8 " + H(sz) + " " + H(nz)); }
                 if (T >= 0x33) for (uint64_t sz : {(uint64_t)255, (uint64_t)256, (uint64_t)32767}) add("ring " + H(T) + " 0 1 " + H(gseed()) + " 2 " + H(sz) + " " + H(nz));
                 if (T >= 0x35) for (uint64_t sz : {(uint64_t)65536, (uint64_t)2147483646ULL, (uint64_t)2147483647ULL}) add("ring " + H(T) + " 0 1 " + H(gseed()) + " 2 " + H(sz) + " " + H(nz));
                 if (T >= 0x37 && T != 0x39) for (uint64_t sz : {(uint64_t)2147483648ULL, (uint64_t)1 << 40, (uint64_t)0x7fffffffffffffffULL}) add("ring " + H(T) + " 0 1 " + H(gseed()) + " 2 " + H(sz) + " " + H(nz));
@@ -951,6 +971,8 @@ struct Gen {
             // the member functions with an explicit size are called with sizes inside the field only
             for (uint64_t sz : {(uint64_t)0, (uint64_t)1, (uint64_t)2, (uint64_t)3, q / 2 + 1, q - 1, q, q + 1, 2 * q + 1, (uint64_t)0x7fffffff}) {
                 add(hd + H(gseed()) + " 1 " + H(sz) + " " + H(nn));
+                add(hd + H(gseed()) + " 8 " + H(sz) + " " + H(nn));
+                add(hd + H(gseed()) + " 9 " + H(sz) + " " + H(nn));
                 if (sz >= 1 && sz <= q) add(hd + H(gseed()) + " 6 " + H(sz) + " " + H(nn));
                 if (sz >= 2 && sz <= q) add(hd + H(gseed()) + " 7 " + H(sz) + " " + H(nn));
             }
